@@ -8,6 +8,7 @@
 mod common;
 mod curve;
 mod field;
+mod konst;
 #[cfg(feature = "ark")]
 mod ark_only;
 
@@ -34,6 +35,7 @@ fn main() {
             let arg = args.get(4).cloned().unwrap_or_default();
             let ok = curve::record(suite, n, seed, &arg, &mut out)
                 || field::record(suite, n, seed, &arg, &mut out)
+                || konst::record(suite, n, seed, &arg, &mut out)
                 || ark_record(suite, n, seed, &arg, &mut out);
             if !ok {
                 eprintln!("unknown suite {}", suite);
